@@ -6,6 +6,12 @@
 mod c01;
 mod c02;
 mod c03;
+mod c04;
+mod c07;
+mod c08;
+mod c14;
+mod c18;
+mod c19;
 mod common;
 
 use common::*;
@@ -20,6 +26,11 @@ fn tape_checks<'a>(ctx: &'a Ctx) -> Vec<(&'static str, Box<CheckFn<'a>>)> {
 		"C01" => c01::tape_checks(ctx),
 		"C02" => c02::tape_checks(ctx),
 		"C03" => c03::tape_checks(ctx),
+		"C07" => c07::tape_checks(ctx),
+		"C08" => c08::tape_checks(ctx),
+		"C14" => c14::tape_checks(ctx),
+		"C18" => c18::tape_checks(ctx),
+		"C19" => c19::tape_checks(ctx),
 		_ => vec![],
 	}
 }
@@ -29,6 +40,12 @@ fn run_property(ctx: &Ctx) -> Option<(Level, Report)> {
 		"C01" => c01::run(ctx),
 		"C02" => c02::run(ctx),
 		"C03" => c03::run(ctx),
+		"C04" => c04::run(ctx),
+		"C07" => c07::run(ctx),
+		"C08" => c08::run(ctx),
+		"C14" => c14::run(ctx),
+		"C18" => c18::run(ctx),
+		"C19" => c19::run(ctx),
 		_ => return None,
 	})
 }
@@ -36,6 +53,7 @@ fn run_property(ctx: &Ctx) -> Option<(Level, Report)> {
 fn replay_direct(ctx: &Ctx, doc: &Value) -> Option<Result<(), Violation>> {
 	match ctx.property {
 		"C03" => c03::replay_direct(ctx, doc),
+		"C04" => c04::replay_direct(ctx, doc),
 		_ => None,
 	}
 }
@@ -116,10 +134,14 @@ fn main() {
 			},
 		};
 		let ctx = Ctx::new(property, tier);
-		match run_property(&ctx) {
-			Some((level, report)) => finish(&ctx, level, report),
-			None => {
+		match std::panic::catch_unwind(std::panic::AssertUnwindSafe(|| run_property(&ctx))) {
+			Ok(Some((level, report))) => finish(&ctx, level, report),
+			Ok(None) => {
 				eprintln!("unknown property {property}");
+				2
+			},
+			Err(_) => {
+				eprintln!("INCONCLUSIVE property={property} harness panicked: {}", psc_model::runner::take_panic_message());
 				2
 			},
 		}
